@@ -254,6 +254,7 @@ class Problem:
         self.env_range = env_range
         self.var_hook = var_hook  # name -> float sampler override (e.g. positive-only variables)
         self.max_sat = 6
+        self.var_ranges = []  # [(name prefix, lo, hi)]: sampling range of the validation / counterexample points
         self.extra_assumptions = []
         self.stats = dict(queries=0, unsat=0, sat=0, unknown=0, solver_s=0.0, nf_s=0.0)
 
@@ -271,6 +272,15 @@ class Problem:
         env = {}
         for v in vars_:
             nm = v.args[0]
+            hit = None
+            for pref, lo, hi in self.var_ranges:
+                if nm.startswith(pref):
+                    hit = (lo, hi)
+                    break
+            if hit is not None:
+                k = rnd.randint(0, 64)
+                env[nm] = hit[0] + (hit[1] - hit[0]) * k / 64.0
+                continue
             if self.var_hook is not None:
                 x = self.var_hook(nm, rnd)
                 if x is not None:
